@@ -42,7 +42,8 @@ def _worker_init(counter):
 
 def _one_run(pid, verif_seed, i, opts):
     eng = engine_for(pid)
-    sc = core.Scratch(i, pid)
+    ns = pid + str(opts.get("tier", "q"))[:1]
+    sc = core.Scratch(i, ns)
     seed = core.derive_seed(pid, verif_seed, i)
     t0 = time.monotonic()
     try:
@@ -51,6 +52,7 @@ def _one_run(pid, verif_seed, i, opts):
         res = eng.execute(case, sc)
         res["i"] = i
         res["slot"] = i
+        res["ns"] = ns
         res["seed"] = seed
         res["wall"] = time.monotonic() - t0
         res["fingerprint"] = core.jdigest([case["world"], case["schedule"]])
@@ -85,9 +87,9 @@ def load_known():
         return json.load(f)
 
 
-def replay_case(pid, case, slot=999000):
+def replay_case(pid, case, slot=999000, ns=None):
     eng = engine_for(pid)
-    sc = core.Scratch(slot, pid)
+    sc = core.Scratch(slot, ns or (pid + "q"))
     try:
         return eng.execute(case, sc)
     finally:
@@ -114,7 +116,7 @@ def check_known(pid, out):
         for rp in known_replays(k, pid):
             with open(rp) as f:
                 rec = json.load(f)
-            res = replay_case(pid, rec["case"], slot=rec.get("slot", 999000))
+            res = replay_case(pid, rec["case"], slot=rec.get("slot", 999000), ns=rec.get("ns"))
             hit = res["verdict"] == "violation" and \
                 res["violation"]["class"] == rec["violation"]["class"]
             if hit and k["status"] != "open":
@@ -153,6 +155,7 @@ def run_campaign(pid, tier, verif_seed, n_runs, workers=16, wall_cap=None, opts=
     truncated = False
     sample_idx = {0, n_runs // 2, n_runs - 1}
     opts["sample_idx"] = sorted(sample_idx)
+    opts["tier"] = tier
     with cf.ProcessPoolExecutor(max_workers=workers, mp_context=ctx, initializer=_worker_init,
                                 initargs=(counter,)) as ex:
         futs = {ex.submit(_one_run, pid, verif_seed, i, opts): i for i in range(n_runs)}
@@ -193,16 +196,17 @@ def handle_violations(pid, results, out=print, max_report=3):
         case = r["case"]
 
         def test(c, cls=cls):
-            res = replay_case(pid, c, slot=r.get("slot", 999001))
+            res = replay_case(pid, c, slot=r.get("slot", 999001), ns=r.get("ns"))
             return res["verdict"] == "violation" and res["violation"]["class"] == cls and \
                 (not hasattr(eng, "accept_shrunk") or eng.accept_shrunk(r, res))
 
         small, mstats = minimise.minimise(case, test, engine=eng)
-        final = replay_case(pid, small, slot=r.get("slot", 999001))
+        final = replay_case(pid, small, slot=r.get("slot", 999001), ns=r.get("ns"))
         if final["verdict"] != "violation" or final["violation"]["class"] != cls:
-            small, final = case, replay_case(pid, case, slot=r.get("slot", 999001))
+            small, final = case, replay_case(pid, case, slot=r.get("slot", 999001), ns=r.get("ns"))
         kid = classify_known(pid, small, final.get("violation") or r["violation"])
         rec = {"property": pid, "seed": r["seed"], "run_index": r["i"], "slot": r.get("slot", 999001),
+               "ns": r.get("ns"),
                "case": small,
                "violation": final.get("violation") or r["violation"], "minimise": mstats,
                "original_size": r.get("size"), "minimised_size": _case_size(small),
